@@ -15,7 +15,7 @@ from vmon.ref import pairs, geom
 
 ID = 'C25'
 RULE = ('crystal as in C24 (35% named, else random Bravais type, 1-2 species, <=3 sites); kinetic star set N in 1..3 limited '
-        'to <= 170 states (N=3 only on small crystals), origin states on in 85% of the cases; omega1/omega2 networks from the '
+        'to <= 170 states (230 in the thorough tier; N=3 only on small crystals), origin states on in 85% of the cases; omega1/omega2 networks from the '
         'star set, optionally pruned like VacancyMediated.generate; random positive class rates / escape rates / GF values; '
         'non-trivial = more than one vector star; distinct = (structure kind, sites, |G|, N, states, vector stars, origin stars)')
 ASSUMPTIONS = ['reference space group = vmon.ref.geom.full_group; invariant subspaces from the group-average projector',
@@ -39,13 +39,13 @@ REQUIRED_OBS = {'vectorstarsets_checked': 60, 'eval:C25:orthonormal': 60, 'eval:
 CASE_TIMEOUT = 400
 PER_CASE = 2
 CHUNK = 2
-MAXSTATES = 170
 TOLZ = 2e-8
 
 
 def cases(tier, seed):
-    n = 44 if tier == 'quick' else 520
-    return [{'seed': seed, 'idx': i, 'hashseed': i % 5} for i in range(n)]
+    if tier == 'quick':
+        return [{'seed': seed, 'idx': i, 'hashseed': i % 5} for i in range(44)]
+    return [{'seed': seed, 'idx': i, 'hashseed': i % 7, 'big': True} for i in range(600)]
 
 
 def dense_fields(vs, nstates, dim):
@@ -66,6 +66,7 @@ def run_case(case):
     mon = Mon()
     rng = gen.rng_for(case['seed'], case['idx'], 25)
     sample = None
+    MAXSTATES = 230 if case.get('big') else 170
     for rep in range(PER_CASE):
         crys, chem, jn, desc, kind = pairs.rand_network(rng, gen, named_prob=0.35, maxshell=2)
         pg = pairs.PairGeom(crys.lattice, crys.basis, chem, jn)
@@ -121,22 +122,41 @@ def run_case(case):
         if not closed:
             mon.count('starset_not_closed')  # C24's business
             continue
-        err = 0.
+        erra = np.zeros(vs.Nvstars)
         for p, op in zip(perms, pg.ops):
-            err = max(err, float(np.max(np.abs(V[:, p, :] - V @ op[3].T))))
-        mon.check(err < 1e-9, 'C25:equivariant', lambda: 'max |v(g.s) - g.v(s)| = %.3e %s' % (err, det()))
+            erra = np.maximum(erra, np.max(np.abs(V[:, p, :] - V @ op[3].T), axis=(1, 2)))
+        # regime: stars whose stabiliser is exactly {1, two-fold rotation about the separation} (3-D only)
+        c2stars = set()
+        stab = {}
+        for si, st in enumerate(ss.stars):
+            rots = pg.stabilizer_rots(keys[st[0]])
+            stab[si] = rots
+            if dim == 3 and len(rots) == 2 and not pg.iszero(keys[st[0]]):
+                R2 = [r for r in rots if not np.allclose(r, np.eye(3), atol=1e-6)]
+                dxs = pg.dx(keys[st[0]])
+                if len(R2) == 1 and np.linalg.det(R2[0]) > 0 and abs(np.trace(R2[0]) + 1) < 1e-6 and \
+                        np.allclose(R2[0] @ dxs, dxs, atol=1e-6):
+                    c2stars.add(si)
+        mon.count('c2_axis_stars', len(c2stars))
+        for grp, gtags in ((False, []), (True, ['C2-axis-stabiliser'])):
+            sel = [a for a in range(vs.Nvstars) if (vstar_star[a] in c2stars) == grp]
+            if not sel: continue
+            err = float(np.max(erra[sel]))
+            mon.check(err < 1e-9, 'C25:equivariant', lambda: 'max |v(g.s) - g.v(s)| = %.3e (vector stars %s) %s' % (
+                err, [a for a in sel if erra[a] >= 1e-9][:6], det()), tags=gtags)
         # ---- count and completeness per star ---------------------------------------------------
         nper = {}
         for a, si in enumerate(vstar_star): nper.setdefault(si, []).append(a)
         for si, st in enumerate(ss.stars):
             k0 = keys[st[0]]
-            P = geom.vector_projector(pg.stabilizer_rots(k0))
+            P = geom.vector_projector(stab[si])
             want = int(round(np.trace(P)))
             mine = nper.get(si, [])
             iso = pg.iszero(k0)
             mon.check(len(mine) == want, 'C25:count',
                       lambda: 'star %d (first state %s, %d states): %d vector stars, invariant space of the stabiliser has '
-                              'dimension %d %s' % (si, k0, len(st), len(mine), want, det()))
+                              'dimension %d %s' % (si, k0, len(st), len(mine), want, det()),
+                      tags=['C2-axis-stabiliser'] if si in c2stars else [])
             if len(mine) == want:
                 S = sum((np.outer(V[a, st[0]], V[a, st[0]]) for a in mine), np.zeros((dim, dim))) * len(st)
                 mon.close(S, P, 1e-9, 'C25:span=invariant-space', lambda: 'star %d first state %s %s' % (si, k0, det()))
@@ -198,7 +218,10 @@ def run_case(case):
                 jnw, jtw, spw = [jnw[k] for k in keep], [jtw[k] for k in keep], [spw[k] for k in keep]
                 mon.count('pruned_networks')
             ncl = len(jnw)
-            if ncl == 0: continue
+            if ncl == 0:
+                # a network without any transition of this kind (closed pairs of sites): the expansions are empty arrays
+                tags = tags + ['empty-network']
+                mon.count('empty_networks')
             om = np.exp(rng.normal(size=ncl))
             esc = np.exp(rng.normal(size=(ncl, ss.Nstars)))  # escape rate of class k from a state of star s
             res = None
